@@ -321,11 +321,13 @@ impl StructureScanConfig {
         self.count_exclude.is_match(file_name) || self.count_exclude.is_match(path)
     }
 
-    /// Find the first allowlist rule matching a directory.
+    /// Find the allowlist rule for a directory: the last declared rule whose scope
+    /// matches, the same rule `StructureChecker::resolve_limits` / `explain` select.
     #[must_use]
     pub fn find_matching_allowlist_rule(&self, dir: &Path) -> Option<&AllowlistRule> {
         self.allowlist_rules
             .iter()
+            .rev()
             .find(|r| r.matches_directory(dir))
     }
 
